@@ -7,7 +7,8 @@ use duke::verif::reader::Pool;
 fn body(tag: u8) -> (usize, bool) { match tag { 3 | 4 => (4, false), _ => (8, true) } }
 
 //# {"id":"c01_pool_method_handle","props":["C01","C16"],"tier":"quick","cap":1500,"lib":"verif","bound":"a concrete 11-entry pool (Utf8 A f I ()V, Class, two NameAndType, FieldRef, MethodRef, InterfaceMethodRef) whose last entry is a MethodHandle with SYMBOLIC reference_kind (all 256 values) and SYMBOLIC reference_index (0..=12): get_loadable must yield the JVMS 4.4.8 handle kind for the kind/reference combination and an error otherwise; unwind 14","fns":["PoolRead::{read,get_loadable,get_method_handle}","PoolEntry::{as_loadable,as_method_handle,as_field_ref,as_method_ref,as_interface_method_ref,as_method_ref_or_interface_method_ref}","duke::jstring::from_vec_to_string"]}
-//# {"id":"c01_pool_numeric","props":["C01","C16"],"tier":"quick","cap":1200,"bound":"constant_pool_count in 0..=4 (symbolic), first entry Integer/Float/Long/Double with symbolic payload, second entry Integer/Float, buffer possibly truncated by 0..=2 bytes; every index 0..=5 through every numeric getter; unwind 12","fns":["duke::class_reader::pool::PoolRead::{read,get,get_integer,get_long,get_float,get_double}","duke::ClassRead::{read_u8,read_u16,read_i32,read_i64,read_u32,read_u64}"]}
+//# {"id":"c01_pool_one","props":["C01","C16"],"tier":"quick","cap":1200,"bound":"constant_pool_count = 2 or 3 (what a long/double needs), one entry Integer/Float/Long/Double (symbolic tag and payload); every index 0..=3 through every numeric getter; unwind 10","fns":["duke::class_reader::pool::PoolRead::{read,get,get_integer,get_long,get_float,get_double}","duke::ClassRead::{read_u8,read_u16,read_i32,read_i64,read_u32,read_u64}"]}
+//# {"id":"c01_pool_numeric","props":["C01","C16"],"tier":"thorough","cap":3600,"bound":"constant_pool_count in 0..=4 (symbolic), first entry Integer/Float/Long/Double with symbolic payload, second entry Integer/Float, buffer possibly truncated by 0..=2 bytes; every index 0..=5 through every numeric getter; unwind 12","fns":["duke::class_reader::pool::PoolRead::{read,get,get_integer,get_long,get_float,get_double}","duke::ClassRead::{read_u8,read_u16,read_i32,read_i64,read_u32,read_u64}"]}
 proofs! {
 	#[cfg_attr(kani, kani::unwind(14))]
 	fn c01_pool_method_handle() {
@@ -63,6 +64,39 @@ proofs! {
 		witness!(want == Some(7) && is_i, "REF_invokeSpecial on an interface method");
 		witness!(kind == 9 && is_m, "REF_invokeInterface on a Methodref (rejected)");
 		core::mem::forget(r); core::mem::forget(pool);
+	}
+
+	#[cfg_attr(kani, kani::unwind(10))]
+	fn c01_pool_one() {
+		let t1 = sym::u8_in(3, 6);
+		let (n1, wide1) = body(t1);
+		let mut p1 = [0u8; 8];
+		let mut i = 0;
+		while i < 8 { p1[i] = sym::u8(); i += 1; }
+		// a long/double announces two slots: count = 3; the others count = 2
+		let buf: [u8; 11] = [0, if wide1 { 3 } else { 2 }, t1, p1[0], p1[1], p1[2], p1[3], p1[4], p1[5], p1[6], p1[7]];
+		let (pool, consumed) = Pool::read(&buf[..3 + n1]).expect("a well-formed one-entry pool must be read");
+		assert!(consumed as usize == 3 + n1, "the reader must consume exactly the pool");
+		let v32 = i32::from_be_bytes([p1[0], p1[1], p1[2], p1[3]]);
+		let v64 = i64::from_be_bytes(p1);
+		let mut idx: u16 = 0;
+		while idx <= 3 {
+			let (gi, gf, gl, gd) = (pool.get_integer(idx), pool.get_float(idx), pool.get_long(idx), pool.get_double(idx));
+			if idx == 1 {
+				assert!(gi.is_ok() == (t1 == 3) && gf.is_ok() == (t1 == 4) && gl.is_ok() == (t1 == 5) && gd.is_ok() == (t1 == 6), "typed getter must succeed exactly for its tag");
+				if let Ok(v) = gi { assert!(v == v32, "Integer value is the big-endian payload"); }
+				if let Ok(v) = gf { assert!(v.to_bits() == v32 as u32, "Float bits are the big-endian payload"); }
+				if let Ok(v) = gl { assert!(v == v64, "Long value is the big-endian payload"); }
+				if let Ok(v) = gd { assert!(v.to_bits() == v64 as u64, "Double bits are the big-endian payload"); }
+			} else {
+				assert!(gi.is_err() && gf.is_err() && gl.is_err() && gd.is_err(), "index 0, the upper half of a long/double and indices past the pool must be errors");
+			}
+			core::mem::forget((gi, gf, gl, gd));
+			idx += 1;
+		}
+		witness!(wide1, "a two-slot entry");
+		witness!(t1 == 4, "a float");
+		core::mem::forget(pool);
 	}
 
 	#[cfg_attr(kani, kani::unwind(12))]
